@@ -77,8 +77,9 @@ RABBIT_THEOREMS = {
             "rabbit_requeue_window_witness", "rabbit_nack_nonnormal_witness",
             "nack_spec", "consume_total", "finish_conserves", "rabbit_ledger", "rabbit_ledger_from_empty", "rabbit_no_discard",
             "rabbit_exactly_one_place"],
-    "C03": ["rabbit_requeue_window_witness", "finish_conserves", "finish_clears", "rabbit_stop_conserves", "rabbit_stop_clears"],
-    "C10": ["finish_conserves", "finish_clears", "rabbit_stop_conserves", "rabbit_stop_clears"],
+    "C03": ["rabbit_requeue_window_witness", "finish_conserves", "finish_clears", "rabbit_stop_conserves", "rabbit_stop_clears",
+            "rabbit_cancelled_handover_witness"],
+    "C10": ["finish_conserves", "finish_clears", "rabbit_stop_conserves", "rabbit_stop_clears", "rabbit_cancelled_handover_witness"],
     "C05": ["expiry_not_early", "expiry_not_late", "head_blocks", "expire_step_due", "rabbit_head_of_line_witness"],
     "C12": ["onMessage_spec", "rabbit_no_expired_handover", "rabbit_dead_letters_retrievable"],
     "C15": ["insert_after_equal_or_higher", "fifo_two"],
